@@ -385,6 +385,8 @@ pub fn run(a: &Args) {
     guarded(&mut r, "C19|constants|unexpected-panic", || "consts".into(), |r| consts(r));
     guarded(&mut r, "C19|codecs|unexpected-panic", || "codecs".into(), |r| codecs(r));
     guarded(&mut r, "C19|Dr7Value|unexpected-panic", || "dr7".into(), |r| dr7(r));
+    // exception-vector numbers as the IDT lays them out: each named field at 16 x its vector
+    guarded(&mut r, "C19|named-field|unexpected-panic", || "field".into(), |r| crate::c12::named_field_placement(r, "C19"));
     // PAT conversion through the register wrapper (the rdmsr is emulated): every byte value in every slot
     guarded(&mut r, "C19|Pat::read|unexpected-panic", || "patimage".into(), |r| crate::c16::pat_images(r, "C19"));
     // privilege-level field of descriptors (bits 45-46 of the first word, for user and system descriptors alike)
